@@ -29,7 +29,7 @@ def hashTyL : List FTy → Bool
 end
 
 def litLeaf : Val → Bool
-  | .str _ | .int _ | .bool _ | .none => true
+  | .str _ | .int _ | .bool _ => true
   | _ => false
 
 mutual
@@ -58,18 +58,15 @@ def wfF : List (Str × FMeta × Option Val × FTy) → Bool
     m.toDict && m.enc.isNone && m.dec.isNone && wf t && !(n == DC_TYPE_KEY) && fs.all (fun f => !(f.1 == n)) && wfF fs
 end
 
-/-- the named exclusion on ints: `_decode_int` evaluates `float(v)`, which overflows beyond the float range -/
-def intOk (n : Int) : Bool := !floatOverflow n
-
 /-- set elements are pairwise different under Python `==` -/
 def elemsDistinct : List Val → Bool
   | [] => true
   | x :: xs => xs.all (fun y => !pyEq x y) && elemsDistinct xs
 
 mutual
-/-- **HasType**: `v` is an instance of the annotation `t` (with `intOk` on every int) -/
+/-- **HasType**: `v` is an instance of the annotation `t` -/
 def hasType : FTy → Val → Bool
-  | .int, .int n => intOk n
+  | .int, .int _ => true
   | .float, .float _ => true
   | .str, .str _ => true
   | .bool, .bool _ => true
@@ -108,7 +105,7 @@ def isNone : Val → Bool
   | _ => false
 
 mutual
-/-- **UnionSafe**: at every Union node the first member whose decoder accepts the received value is a
+/-- **UnionSafe**: at every Union node that has a non-primitive member, the first member whose decoder accepts the received value is a
     member the value is an instance of ("no earlier member's decoder accepts the encoded value of a
     later member").  Decidable: it is a boolean function that runs the decoders. -/
 def unionSafe : FTy → Val → Bool
@@ -118,9 +115,10 @@ def unionSafe : FTy → Val → Bool
   | .tuple ts, .tuple xs => unionSafeL ts xs
   | .dict _ v, .dict _ ps => ps.all (fun p => unionSafe v p.2)
   | .union alts, v =>
-    match wire henv tr v with
-    | .ok r => unionSafeU (alts.any FTy.isNoneT) alts v r
-    | _ => false
+    if unionOfPrims alts then true     -- Unions of primitives need no side condition (decoding.py:361-371)
+    else match wire henv tr v with
+      | .ok r => unionSafeU (alts.any FTy.isNoneT) alts v r
+      | _ => false
   | .dc _ _ fs, .inst _ _ ifs => unionSafeF fs ifs
   | _, _ => true
 def unionSafeL : List FTy → List Val → Bool
@@ -414,11 +412,10 @@ theorem key_decode (K : FTy) (k : Val) (hK : keyTy K = true) (hk : hasType K k =
   cases K <;> simp [keyTy] at hK <;> cases k <;> simp [hasType] at hk
   · -- int
     rename_i n
-    have hov : floatOverflow n = false := by simpa [intOk] using hk
     cases tr
-    · simp only [rk, encKey]; rw [decode_int]; exact decodeInt_int n hov
+    · simp only [rk, encKey]; rw [decode_int]; exact decodeInt_int n
     · simp only [rk, encKey, jks, jsonKey]; rw [decode_int]; exact decodeInt_str_showInt n
-    · simp only [rk, encKey]; rw [decode_int]; exact decodeInt_int n hov
+    · simp only [rk, encKey]; rw [decode_int]; exact decodeInt_int n
   · -- str
     cases tr <;> simp only [rk, encKey, jks, jsonKey] <;> rw [decode_str] <;> rfl
   · -- bool
@@ -644,6 +641,47 @@ theorem decodeOptional_other (optional : Bool) (d : Val → Out Val) (r : Val)
   · simp [isNone] at h
   · rfl
 
+/-! ### Unions of primitives (decoding.py:361-371) -/
+
+theorem primMember_none (t : FTy) : primMember .none t = false := by cases t <;> rfl
+
+theorem decodeU_none (alts : List FTy) : decodeU henv true alts .none = .ok .none := by
+  induction alts with
+  | nil => simp [decodeU]
+  | cons t ts ih =>
+    unfold decodeU
+    by_cases hn : t.isNoneT = true
+    · simp only [hn, ↓reduceIte]; exact ih
+    · simp only [hn, Bool.false_eq_true, ↓reduceIte, decodeOptional_none]
+
+theorem unionOfPrims_mem {alts : List FTy} (hp : unionOfPrims alts = true) :
+    ∀ t ∈ alts, t.isNoneT = true ∨ t.isPrimTy = true := by
+  intro t ht
+  simp only [unionOfPrims, Bool.and_eq_true, List.all_eq_true, List.mem_filter, Bool.not_eq_eq_eq_not, Bool.not_true,
+    and_imp] at hp
+  by_cases hn : t.isNoneT = true
+  · exact Or.inl hn
+  · exact Or.inr (hp.2 t ht (by simpa using hn))
+
+/-- a value of a Union of primitives is None (and the Union is Optional) or a primitive whose exact type is a member -/
+theorem hasTypeU_prims (alts : List FTy) (v : Val) (hall : ∀ t ∈ alts, t.isNoneT = true ∨ t.isPrimTy = true)
+    (ht : hasTypeU alts v = true) :
+    (v = .none ∧ alts.any FTy.isNoneT = true) ∨ (isPrimLeaf v = true ∧ alts.any (primMember v) = true) := by
+  induction alts with
+  | nil => simp [hasTypeU] at ht
+  | cons t ts ih =>
+    simp only [hasTypeU, Bool.or_eq_true] at ht
+    rcases ht with h | h
+    · rcases hall t (by simp) with hn | hp
+      · cases t <;> simp [FTy.isNoneT] at hn
+        cases v <;> simp [hasType] at h
+        exact Or.inl ⟨rfl, by simp [FTy.isNoneT]⟩
+      · cases t <;> simp [FTy.isPrimTy] at hp <;> cases v <;> simp [hasType] at h <;>
+          exact Or.inr ⟨rfl, by simp [primMember]⟩
+    · rcases ih (fun u hu => hall u (by simp [hu])) h with ⟨h1, h2⟩ | ⟨h1, h2⟩
+      · exact Or.inl ⟨h1, by simp [h2]⟩
+      · exact Or.inr ⟨h1, by simp [h2]⟩
+
 mutual
 theorem rt (t : FTy) (v : Val) (hw : wf t = true) (ht : hasType t v = true)
     (hs : unionSafe henv tr t v = true) : RT henv tr t v ∧ TD henv v := by
@@ -654,8 +692,7 @@ theorem rt (t : FTy) (v : Val) (hw : wf t = true) (ht : hasType t v = true)
     cases v with
     | int n =>
       refine ⟨RT_of henv tr (wire_leaf henv tr _ rfl) ?_, fun _ _ _ h => nomatch h⟩
-      have : floatOverflow n = false := by simpa [hasType, intOk] using ht
-      rw [decode_int]; exact decodeInt_int n this
+      rw [decode_int]; exact decodeInt_int n
     | _ => simp [hasType] at ht
   | .float, _ =>
     cases v with
@@ -807,14 +844,30 @@ theorem rt (t : FTy) (v : Val) (hw : wf t = true) (ht : hasType t v = true)
     | _ => simp [hasType] at ht
   | .union alts, hw =>
     simp only [wf] at hw
-    simp only [unionSafe] at hs
-    split at hs
-    · next r hr =>
-      obtain ⟨hd, htd⟩ := rtU (alts.any FTy.isNoneT) alts v r hw hr hs
-      refine ⟨RT_of henv tr hr ?_, htd⟩
-      rw [decode_union]
-      exact hd
-    · simp at hs
+    by_cases hp : unionOfPrims alts = true
+    · -- a Union of primitives: no side condition
+      simp only [hasType] at ht
+      rcases hasTypeU_prims alts v (unionOfPrims_mem hp) ht with ⟨hv, hopt⟩ | ⟨hleaf, hmem⟩
+      · subst hv
+        refine ⟨RT_of henv tr (wire_leaf henv tr .none rfl) ?_, fun _ _ _ h => nomatch h⟩
+        rw [decode_union]
+        have hno : alts.any (primMember .none) = false := by
+          simp only [List.any_eq_false]; intro t _; simp [primMember_none]
+        simp only [hno, Bool.and_false, Bool.false_eq_true, ↓reduceIte, hopt]
+        exact decodeU_none henv alts
+      · refine ⟨RT_of henv tr (wire_leaf henv tr v hleaf) ?_, ?_⟩
+        · rw [decode_union]; simp only [hp, hmem, Bool.and_self, ↓reduceIte]
+        · intro c r ifs h; subst h; simp [isPrimLeaf] at hleaf
+    · have hp' : unionOfPrims alts = false := by simpa using hp
+      simp only [unionSafe, hp', Bool.false_eq_true, ↓reduceIte] at hs
+      split at hs
+      · next r hr =>
+        obtain ⟨hd, htd⟩ := rtU (alts.any FTy.isNoneT) alts v r hw hr hs
+        refine ⟨RT_of henv tr hr ?_, htd⟩
+        rw [decode_union]
+        simp only [hp', Bool.false_and, Bool.false_eq_true, ↓reduceIte]
+        exact hd
+      · simp at hs
   | .dc c reg fs, hw =>
     cases v with
     | inst c' reg' ifs =>
@@ -822,10 +875,10 @@ theorem rt (t : FTy) (v : Val) (hw : wf t = true) (ht : hasType t v = true)
       simp only [hasType, Bool.and_eq_true, beq_iff_eq] at ht
       simp only [unionSafe] at hs
       obtain ⟨⟨hc, hreg⟩, htf⟩ := ht
-      obtain ⟨h1, h2, h3, h4⟩ := rtF fs ifs hw htf hs
+      obtain ⟨h1, h2, h4⟩ := rtF fs ifs hw htf hs
       obtain ⟨hnd, hnt⟩ := names_of_hasTypeF fs ifs hw htf
       have henc : encode henv (.inst c' reg' ifs) = .ok (.dict false (ifs.map fun f => (Val.str f.1, E henv f.2.2))) := by
-        cases reg' <;> simp [encode, h2, h3]
+        simp [encode, h2]
       have htd : toDictF henv ifs = .ok (.dict false (ifs.map fun f => (Val.str f.1, E henv f.2.2))) := by
         simp [toDictF, h2]
       have htr : transport tr (.dict false (ifs.map fun f => (Val.str f.1, E henv f.2.2))) =
@@ -880,11 +933,10 @@ theorem rtF (fs : List (Str × FMeta × Option Val × FTy)) (ifs : List (Str × 
     (hw : wfF fs = true) (ht : hasTypeF fs ifs = true) (hs : unionSafeF henv tr fs ifs = true) :
     (∀ f ∈ ifs, wire henv tr f.2.2 = .ok (W henv tr f.2.2)) ∧
     toDictL henv ifs = .ok (ifs.map fun f => (Val.str f.1, E henv f.2.2)) ∧
-    encAllF henv ifs = .ok (ifs.map fun f => (Val.str f.1, E henv f.2.2)) ∧
     ∀ d, (∀ f ∈ ifs, lookupKey (.str f.1) d = some (W henv tr f.2.2)) → decodeFields henv d fs false = .ok ifs := by
   match fs, ifs, hw, ht, hs with
   | [], [], _, _, _ =>
-    exact ⟨fun _ h => (nomatch h), by simp [toDictL], by simp [encAllF], fun _ _ => by simp [decodeFields]⟩
+    exact ⟨fun _ h => (nomatch h), by simp [toDictL], fun _ _ => by simp [decodeFields]⟩
   | [], _ :: _, _, ht, _ => simp [hasTypeF] at ht
   | _ :: _, [], _, ht, _ => simp [hasTypeF] at ht
   | (n, m, dflt, t) :: fs, (n', m', v) :: ifs, hw, ht, hs =>
@@ -895,11 +947,11 @@ theorem rtF (fs : List (Str × FMeta × Option Val × FTy)) (ifs : List (Str × 
     obtain ⟨⟨⟨⟨⟨⟨hmd, hme⟩, hmdec⟩, hwt⟩, _⟩, _⟩, hwr⟩ := hw
     subst hn; subst hm
     obtain ⟨⟨h0w, h0d⟩, h0td⟩ := rt t v hwt htv hs.1
-    obtain ⟨h1, h2, h3, h4⟩ := rtF fs ifs hwr htr hs.2
+    obtain ⟨h1, h2, h4⟩ := rtF fs ifs hwr htr hs.2
     have hev := (wire_split henv tr h0w).1
     have hme' : m.enc = none := by simpa using hme
     have hmd' : m.dec = none := by simpa using hmdec
-    refine ⟨?_, ?_, ?_, ?_⟩
+    refine ⟨?_, ?_, ?_⟩
     · intro f hf
       rcases List.mem_cons.mp hf with rfl | hf
       · exact h0w
@@ -913,7 +965,6 @@ theorem rtF (fs : List (Str × FMeta × Option Val × FTy)) (ifs : List (Str × 
       | _ =>
         simp only [toDictL, hmd, Bool.not_true, Bool.false_eq_true, ↓reduceIte, hme', hev, Out.ok_bind, h2,
           List.map_cons]
-    · simp only [encAllF, hev, Out.ok_bind, h3, List.map_cons]
     · intro d hd
       have hl := hd (n, m, v) (by simp)
       simp only at hl
@@ -962,17 +1013,17 @@ end
 /-- `decode t (transport (encode v))` — one value through writer, transport and reader -/
 def wireDecode (t : FTy) (v : Val) : Out Val := (wire henv tr v).bind (decode henv t)
 
-/-- **C05, value level (partial: named exclusions `UnionSafe` and `intOk`).**  For every annotation of the
-    grammar (any nesting depth), every value of that type, every hook environment and each of the three
-    transports: decoding what was written gives the value back — same constructors at every node, i.e.
-    tuples as tuples, sets as sets, enum members, paths, dict keys in their key type, instances. -/
+/-- **C05, value level, any Union (partial: named exclusion `UnionSafe` at Unions with a non-primitive member).**
+    For every annotation of the grammar (any nesting depth), every value of that type, every hook environment and
+    each of the three transports: decoding what was written gives the value back — same constructors at every
+    node, i.e. tuples as tuples, sets as sets, enum members, paths, dict keys in their key type, instances. -/
 theorem c05_roundtrip_partial (t : FTy) (v : Val) (hw : wf t = true) (ht : hasType t v = true)
     (hs : unionSafe henv tr t v = true) : wireDecode henv tr t v = .ok v := by
   obtain ⟨⟨h1, h2⟩, _⟩ := rt henv tr t v hw ht hs
   simp [wireDecode, h1, h2]
 
-/-- **C05, instance level**: `from_dict(cls, transport(to_dict(x))) = x` for dataclass trees (Serializable or
-    plain at every level), incl. Optional / List / Dict of dataclasses. -/
+/-- **C05, instance level, any Union (partial)**: `from_dict(cls, transport(to_dict(x))) = x` for dataclass
+    trees (Serializable or plain at every level), incl. Optional / List / Dict of dataclasses. -/
 theorem c05_instance_partial (c : Str) (reg : Bool) (fs : List (Str × FMeta × Option Val × FTy)) (x : Val)
     (hw : wf (.dc c reg fs) = true) (ht : hasType (.dc c reg fs) x = true)
     (hs : unionSafe henv tr (.dc c reg fs) x = true) : roundTrip henv tr (.dc c reg fs) x = .ok x := by
@@ -986,47 +1037,335 @@ theorem c05_instance_partial (c : Str) (reg : Bool) (fs : List (Str × FMeta × 
     simp only [he, Out.ok_bind, hte, h2]
   | _ => simp [hasType] at ht
 
-/-- the statement without the Union side condition -/
+/-! #### the property's own grammar: every Union is `Optional[T]` or a Union of primitives (possibly with None) -/
+
+def isUnionTy : FTy → Bool
+  | .union _ => true
+  | _ => false
+
+/-- number of non-None members -/
+def nMembers (alts : List FTy) : Nat := (alts.filter fun t => !t.isNoneT).length
+
+mutual
+/-- every Union node either has only primitive non-None members ("Union of primitives") or a single non-None
+    member (`Optional[T]`, any `T` of the grammar) -/
+def primUnions : FTy → Bool
+  | .list t => primUnions t
+  | .set t => primUnions t
+  | .vtuple t => primUnions t
+  | .tuple ts => primUnionsL ts
+  | .dict k v => primUnions k && primUnions v
+  | .union alts => unionOfPrims alts || (nMembers alts == 1 && primUnionsU alts)
+  | .dc _ _ fs => primUnionsF fs
+  | _ => true
+def primUnionsL : List FTy → Bool
+  | [] => true
+  | t :: ts => primUnions t && primUnionsL ts
+def primUnionsU : List FTy → Bool
+  | [] => true
+  | t :: ts => (t.isNoneT || (primUnions t && !isUnionTy t)) && primUnionsU ts   -- typing flattens nested Unions
+def primUnionsF : List (Str × FMeta × Option Val × FTy) → Bool
+  | [] => true
+  | (_, _, _, t) :: fs => primUnions t && primUnionsF fs
+end
+
+theorem encode_none {v : Val} (he : encode henv v = .ok .none) : v = .none := by
+  cases v with
+  | none => rfl
+  | bool _ | int _ | float _ | str _ | path _ | enum _ _ => simp [encode] at he
+  | list xs | tuple xs | set xs =>
+    simp only [encode] at he
+    obtain ⟨_, _, h2⟩ := Out.bind_eq_ok he
+    cases h2
+  | inst c r fs =>
+    simp only [encode] at he
+    obtain ⟨_, _, h2⟩ := Out.bind_eq_ok he
+    cases h2
+  | dict o ps =>
+    simp only [encode] at he
+    split at he
+    · cases he
+    · obtain ⟨_, _, h2⟩ := Out.bind_eq_ok he
+      obtain ⟨acc, _, h3⟩ := Out.bind_eq_ok h2
+      cases acc <;> simp [DAcc.toVal] at h3
+
+theorem jsonTr_none {e : Val} (h : jsonTr e = .ok .none) : e = .none := by
+  cases e with
+  | none => rfl
+  | bool _ | int _ | float _ | str _ | path _ | enum _ _ | set _ | inst _ _ _ => simp [jsonTr] at h
+  | list xs | tuple xs =>
+    simp only [jsonTr] at h
+    obtain ⟨_, _, h2⟩ := Out.bind_eq_ok h
+    cases h2
+  | dict o ps =>
+    simp only [jsonTr] at h
+    split at h
+    · cases h
+    · obtain ⟨_, _, h2⟩ := Out.bind_eq_ok h
+      cases h2
+
+/-- only None is written as None -/
+theorem wire_none {v : Val} (h : wire henv tr v = .ok .none) : v = .none := by
+  unfold wire at h
+  obtain ⟨e, he, hte⟩ := Out.bind_eq_ok h
+  have hen : e = .none := by
+    cases tr with
+    | id => simpa [transport] using hte
+    | yaml => exact ((yamlTr_ok (by simpa [transport] using hte)).2).symm
+    | json => exact jsonTr_none (by simpa [transport] using hte)
+  subst hen
+  exact encode_none henv he
+
+theorem nMembers_zero {ts : List FTy} (h : nMembers ts = 0) : ∀ u ∈ ts, u.isNoneT = true := by
+  intro u hu
+  by_cases hn : u.isNoneT = true
+  · exact hn
+  · have : u ∈ ts.filter fun t => !t.isNoneT := List.mem_filter.mpr ⟨hu, by simpa using hn⟩
+    simp only [nMembers, List.length_eq_zero_iff] at h
+    rw [h] at this; cases this
+
+theorem hasTypeU_allNone {ts : List FTy} (h : ∀ u ∈ ts, u.isNoneT = true) {v : Val} (ht : hasTypeU ts v = true) :
+    v = .none := by
+  induction ts with
+  | nil => simp [hasTypeU] at ht
+  | cons u us ih =>
+    simp only [hasTypeU, Bool.or_eq_true] at ht
+    rcases ht with h1 | h1
+    · have := h u (by simp)
+      cases u <;> simp [FTy.isNoneT] at this
+      cases v <;> simp [hasType] at h1
+      rfl
+    · exact ih (fun w hw => h w (by simp [hw])) h1
+
+theorem optional_of_none (alts : List FTy) (hpu : primUnionsU alts = true) (ht : hasTypeU alts .none = true) :
+    alts.any FTy.isNoneT = true := by
+  induction alts with
+  | nil => simp [hasTypeU] at ht
+  | cons u us ih =>
+    simp only [primUnionsU, Bool.and_eq_true, Bool.or_eq_true] at hpu
+    simp only [hasTypeU, Bool.or_eq_true] at ht
+    rcases ht with h1 | h1
+    · cases u <;> simp [hasType, litLeaf] at h1
+      · simp [FTy.isNoneT]
+      · rcases hpu.1 with h2 | h2 <;> simp [FTy.isNoneT, isUnionTy] at h2
+    · simp [ih hpu.2 h1]
+
+theorem unionSafeU_none (alts : List FTy) (h : nMembers alts ≥ 1) :
+    unionSafeU henv tr true alts .none .none = true := by
+  induction alts with
+  | nil => simp [nMembers] at h
+  | cons t ts ih =>
+    unfold unionSafeU
+    by_cases hn : t.isNoneT = true
+    · simp only [hn, ↓reduceIte]
+      apply ih
+      simpa [nMembers, List.filter, hn] using h
+    · simp [hn, isNone]
+
+mutual
+theorem unionSafe_of_primUnions (t : FTy) (v : Val) (hw : wf t = true) (h : primUnions t = true)
+    (ht : hasType t v = true) : unionSafe henv tr t v = true := by
+  match t, hw, h with
+  | .list t, hw, h =>
+    cases v with
+    | list xs =>
+      simp only [wf] at hw; simp only [primUnions] at h; simp only [hasType] at ht
+      simp only [unionSafe, List.all_eq_true]
+      exact fun x hx => unionSafe_of_primUnions t x hw h (all_imp ht x hx)
+    | _ => simp [hasType] at ht
+  | .set t, hw, h =>
+    cases v with
+    | set xs =>
+      simp only [wf, Bool.and_eq_true] at hw; simp only [primUnions] at h
+      simp only [hasType, Bool.and_eq_true] at ht
+      simp only [unionSafe, List.all_eq_true]
+      exact fun x hx => unionSafe_of_primUnions t x hw.1 h (all_imp ht.1 x hx)
+    | _ => simp [hasType] at ht
+  | .vtuple t, hw, h =>
+    cases v with
+    | tuple xs =>
+      simp only [wf] at hw; simp only [primUnions] at h; simp only [hasType] at ht
+      simp only [unionSafe, List.all_eq_true]
+      exact fun x hx => unionSafe_of_primUnions t x hw h (all_imp ht x hx)
+    | _ => simp [hasType] at ht
+  | .tuple ts, hw, h =>
+    cases v with
+    | tuple xs =>
+      simp only [wf] at hw; simp only [primUnions] at h; simp only [hasType] at ht
+      simp only [unionSafe]
+      exact unionSafeL_of_primUnions ts xs hw h ht
+    | _ => simp [hasType] at ht
+  | .dict k vt, hw, h =>
+    cases v with
+    | dict o ps =>
+      cases o with
+      | true => simp [hasType] at ht
+      | false =>
+        simp only [wf, Bool.and_eq_true] at hw; simp only [primUnions, Bool.and_eq_true] at h
+        simp only [hasType, Bool.and_eq_true, List.all_eq_true] at ht
+        simp only [unionSafe, List.all_eq_true]
+        exact fun p hp => unionSafe_of_primUnions vt p.2 hw.2 h.2 (ht.1 p hp).2
+    | _ => simp [hasType] at ht
+  | .union alts, hw, h =>
+    simp only [primUnions, Bool.or_eq_true, Bool.and_eq_true, beq_iff_eq] at h
+    simp only [unionSafe]
+    by_cases hp : unionOfPrims alts = true
+    · simp only [hp, ↓reduceIte]
+    · have hp' : unionOfPrims alts = false := by simpa using hp
+      rcases h with h | ⟨hc, hpu⟩
+      · exact absurd h hp
+      · simp only [hp', Bool.false_eq_true, ↓reduceIte]
+        simp only [wf] at hw
+        simp only [hasType] at ht
+        by_cases hv : v = .none
+        · subst hv
+          rw [wire_leaf henv tr .none rfl]
+          have hopt := optional_of_none alts hpu ht
+          simp only [hopt]
+          exact unionSafeU_none henv tr alts (by omega)
+        · obtain ⟨r, hr, hu⟩ := unionSafeU_of_single (alts.any FTy.isNoneT) alts v hw hpu hc hv ht
+          rw [hr]; exact hu
+  | .dc c reg fs, hw, h =>
+    cases v with
+    | inst c' reg' ifs =>
+      simp only [wf] at hw; simp only [primUnions] at h
+      simp only [hasType, Bool.and_eq_true] at ht
+      simp only [unionSafe]
+      exact unionSafeF_of_primUnions fs ifs hw h ht.2
+    | _ => simp [hasType] at ht
+  | .int, _, _ | .float, _, _ | .str, _, _ | .bool, _, _ | .path, _, _ | .any, _, _ | .noneT, _, _ | .enum _ _, _, _
+  | .literal _, _, _ =>
+    cases v <;> simp only [unionSafe]
+theorem unionSafeL_of_primUnions (ts : List FTy) (xs : List Val) (hw : wfL ts = true) (h : primUnionsL ts = true)
+    (ht : hasTypeL ts xs = true) : unionSafeL henv tr ts xs = true := by
+  match ts, xs, hw, h, ht with
+  | [], [], _, _, _ => simp [unionSafeL]
+  | [], _ :: _, _, _, _ => simp [unionSafeL]
+  | _ :: _, [], _, _, _ => simp [unionSafeL]
+  | t :: ts, x :: xs, hw, h, ht =>
+    simp only [wfL, Bool.and_eq_true] at hw
+    simp only [primUnionsL, Bool.and_eq_true] at h
+    simp only [hasTypeL, Bool.and_eq_true] at ht
+    simp only [unionSafeL, Bool.and_eq_true]
+    exact ⟨unionSafe_of_primUnions t x hw.1 h.1 ht.1, unionSafeL_of_primUnions ts xs hw.2 h.2 ht.2⟩
+/-- `Optional[T]`: the single non-None member is the one the (non-None) value belongs to, and its decoder accepts
+    what was written (by the round trip of `T`) -/
+theorem unionSafeU_of_single (optional : Bool) (alts : List FTy) (v : Val) (hw : wfU alts = true)
+    (hpu : primUnionsU alts = true) (hc : nMembers alts = 1) (hv : v ≠ .none) (ht : hasTypeU alts v = true) :
+    ∃ r, wire henv tr v = .ok r ∧ unionSafeU henv tr optional alts v r = true := by
+  match alts, hw, hpu, hc, ht with
+  | [], _, _, hc, _ => simp [nMembers] at hc
+  | t :: ts, hw, hpu, hc, ht =>
+    simp only [wfU, Bool.and_eq_true, Bool.or_eq_true] at hw
+    simp only [primUnionsU, Bool.and_eq_true, Bool.or_eq_true] at hpu
+    by_cases hn : t.isNoneT = true
+    · have hc' : nMembers ts = 1 := by simpa [nMembers, List.filter, hn] using hc
+      have ht' : hasTypeU ts v = true := by
+        simp only [hasTypeU, Bool.or_eq_true] at ht
+        rcases ht with h1 | h1
+        · cases t <;> simp [FTy.isNoneT] at hn
+          cases v <;> simp [hasType] at h1
+          exact absurd rfl hv
+        · exact h1
+      obtain ⟨r, hr, ih⟩ := unionSafeU_of_single optional ts v hw.2 hpu.2 hc' hv ht'
+      refine ⟨r, hr, ?_⟩
+      unfold unionSafeU; simp only [hn, ↓reduceIte]; exact ih
+    · have hc' : nMembers ts = 0 := by
+        have : nMembers (t :: ts) = nMembers ts + 1 := by simp [nMembers, List.filter, hn]
+        omega
+      have htv : hasType t v = true := by
+        simp only [hasTypeU, Bool.or_eq_true] at ht
+        rcases ht with h1 | h1
+        · exact h1
+        · exact absurd (hasTypeU_allNone (nMembers_zero hc') h1) hv
+      have hwt : wf t = true := by rcases hw.1 with h1 | h1; exact absurd h1 hn; exact h1
+      have hpt : primUnions t = true := by
+        rcases hpu.1 with h1 | h1
+        · exact absurd h1 hn
+        · exact h1.1
+      have hus := unionSafe_of_primUnions t v hwt hpt htv
+      obtain ⟨⟨h1, h2⟩, _⟩ := rt henv tr t v hwt htv hus
+      refine ⟨W henv tr v, h1, ?_⟩
+      have hrn : isNone (W henv tr v) = false := by
+        cases hW : W henv tr v <;> simp [isNone]
+        rw [hW] at h1
+        exact hv (wire_none henv tr h1)
+      unfold unionSafeU
+      simp only [hn, Bool.false_eq_true, ↓reduceIte, hrn, Bool.and_false, h2, htv, hus, Bool.and_self]
+theorem unionSafeF_of_primUnions (fs : List (Str × FMeta × Option Val × FTy)) (ifs : List (Str × FMeta × Val))
+    (hw : wfF fs = true) (h : primUnionsF fs = true) (ht : hasTypeF fs ifs = true) :
+    unionSafeF henv tr fs ifs = true := by
+  match fs, ifs, hw, h, ht with
+  | [], [], _, _, _ => simp [unionSafeF]
+  | [], _ :: _, _, _, _ => simp [unionSafeF]
+  | _ :: _, [], _, _, _ => simp [unionSafeF]
+  | (n, m, d, t) :: fs, (n', m', x) :: ifs, hw, h, ht =>
+    simp only [wfF, Bool.and_eq_true] at hw
+    simp only [primUnionsF, Bool.and_eq_true] at h
+    simp only [hasTypeF, Bool.and_eq_true] at ht
+    simp only [unionSafeF, Bool.and_eq_true]
+    exact ⟨unionSafe_of_primUnions t x hw.1.1.1.2 h.1 ht.1.2, unionSafeF_of_primUnions fs ifs hw.2 h.2 ht.2⟩
+end
+
+/-- **C05, value level, full strength on the property's grammar** (`Optional[T]` and Unions of primitives):
+    no side condition.  Every value of the declared type comes back equal and with every node of its declared
+    type, for every transport and every hook environment. -/
+theorem c05_roundtrip (t : FTy) (v : Val) (hw : wf t = true) (hu : primUnions t = true) (ht : hasType t v = true) :
+    wireDecode henv tr t v = .ok v :=
+  c05_roundtrip_partial henv tr t v hw ht (unionSafe_of_primUnions henv tr t v hw hu ht)
+
+/-- **C05, instance level, full strength on the property's grammar.** -/
+theorem c05_instance (c : Str) (reg : Bool) (fs : List (Str × FMeta × Option Val × FTy)) (x : Val)
+    (hw : wf (.dc c reg fs) = true) (hu : primUnions (.dc c reg fs) = true) (ht : hasType (.dc c reg fs) x = true) :
+    roundTrip henv tr (.dc c reg fs) x = .ok x :=
+  c05_instance_partial henv tr c reg fs x hw ht (unionSafe_of_primUnions henv tr _ x hw hu ht)
+
+/-- **the Union clause**: a value that already is an instance of one member of a Union of primitives comes back
+    unchanged — whatever the order of the members, whatever the other members' decoders would make of it -/
+theorem c05_union_member_unchanged (alts : List FTy) (v : Val) (hw : wf (.union alts) = true)
+    (hp : unionOfPrims alts = true) (ht : hasType (.union alts) v = true) :
+    wireDecode henv tr (.union alts) v = .ok v :=
+  c05_roundtrip henv tr (.union alts) v hw (by simp [primUnions, hp]) ht
+
+/-- … and directly at the decoder: the raw value is not even looked at by the members' decoders -/
+theorem c05_union_exact_member (alts : List FTy) (raw : Val) (hp : unionOfPrims alts = true)
+    (hm : alts.any (primMember raw) = true) : decode henv (.union alts) raw = .ok raw := by
+  rw [decode_union]; simp [hp, hm]
+
+/-- the statement for every Union (members of any type), without the side condition -/
 def FullStatement : Prop :=
   ∀ (henv : HEnv) (tr : Tr) (t : FTy) (v : Val), wf t = true → hasType t v = true → wireDecode henv tr t v = .ok v
 
 def h0 : HEnv := fun _ v => .ok v
 
--- closed-term evaluations below meet `2 ^ 1024` (the float range test of `_decode_int`)
+-- closed-term evaluations below meet `2 ^ 1024` (`float(int)` in the model's `floatOfInt`)
 set_option exponentiation.threshold 2048
 
-/-- D14: `Union[int, str]` holding `"12"` comes back as the int `12` -/
-theorem c05_union_witness_int_str :
-    wireDecode h0 .id (.union [.int, .str]) (.str "12".toList) = .ok (.int 12) := by
+/-- outside the property's grammar: `Union[str, Path]` holding a Path comes back as the str (members are still
+    tried in declaration order when one of them is not a primitive) -/
+theorem c05_union_nonprim_witness :
+    wireDecode h0 .id (.union [.str, .path]) (.path ['a']) = .ok (.str ['a']) := by
   simp only [wireDecode, wire, encode, transport, Out.ok_bind]; rfl
-
-/-- D14: `Union[str, int]` holding `5` comes back as the string `"5"` -/
-theorem c05_union_witness_str_int :
-    wireDecode h0 .id (.union [.str, .int]) (.int 5) = .ok (.str "5".toList) := by
-  simp only [wireDecode, wire, encode, transport, Out.ok_bind]; rfl
-
-/-- D14: `Union[float, int]` holding `2` comes back as the float `2.0` -/
-theorem c05_union_witness_float_int :
-    wireDecode h0 .json (.union [.float, .int]) (.int 2) = .ok (.float "2.0".toList) := by
-  simp only [wireDecode, wire, encode, transport, jsonTr, Out.ok_bind]; rfl
-
-/-- D14: `Union[bool, str]` holding `"yes"` comes back as `True` -/
-theorem c05_union_witness_bool_str :
-    wireDecode h0 .yaml (.union [.bool, .str]) (.str "yes".toList) = .ok (.bool true) := by
-  rfl
 
 theorem c05_full_statement_witness : ¬ FullStatement := by
   intro h
-  have := h h0 .id (.union [.int, .str]) (.str "12".toList) rfl rfl
-  rw [c05_union_witness_int_str] at this
+  have := h h0 .id (.union [.str, .path]) (.path ['a']) rfl rfl
+  rw [c05_union_nonprim_witness] at this
   cases this
 
-/-- outside `intOk`: an int beyond the float range cannot be read back (`float(v)` overflows in `_decode_int`) -/
-theorem c05_int_overflow_witness : wireDecode h0 .id .int (.int (2 ^ 1024)) = .raise "OverflowError".toList := by
-  have h : floatOverflow (2 ^ 1024) = true := by decide +kernel
-  simp only [wireDecode, wire, encode, transport, Out.ok_bind]
-  rw [decode_int]
-  simp only [decodeInt, h, ↓reduceIte]
+/-! regression examples for the repaired defects (D14 — commit bc9d63e, int beyond the float range — fa1139b) -/
+example : wireDecode h0 .id (.union [.int, .str]) (.str "12".toList) = .ok (.str "12".toList) := by
+  simp only [wireDecode, wire, encode, transport, Out.ok_bind]; rfl
+example : wireDecode h0 .id (.union [.str, .int]) (.int 5) = .ok (.int 5) := by
+  simp only [wireDecode, wire, encode, transport, Out.ok_bind]; rfl
+example : wireDecode h0 .json (.union [.float, .int]) (.int 2) = .ok (.int 2) := by
+  simp only [wireDecode, wire, encode, transport, jsonTr, Out.ok_bind]; rfl
+example : wireDecode h0 .yaml (.union [.bool, .str, .noneT]) (.str "yes".toList) = .ok (.str "yes".toList) := by rfl
+example : wireDecode h0 .yaml (.union [.bool, .str, .noneT]) .none = .ok .none := by rfl
+/-- a value whose exact type is NOT a member still goes through the members in order: True in Union[int, str] -/
+example : decode h0 (.union [.int, .str]) (.bool true) = .ok (.int 1) := by rfl
+example : wireDecode h0 .id .int (.int (2 ^ 1024)) = .ok (.int (2 ^ 1024)) := by
+  simp only [wireDecode, wire, encode, transport, Out.ok_bind]; rfl
 
 /-- outside the grammar (`keyTy`): a dict with tuple keys is written as a list of `(key, value)` tuples, which
     the YAML route cannot read back; the direct route answers an OrderedDict -/
@@ -1060,8 +1399,12 @@ example : unionSafe h0 .json exTy exVal = true := by rfl
 example : roundTrip h0 .json exTy exVal = .ok exVal :=
   c05_instance_partial h0 .json _ _ _ exVal (by decide) (by rfl) (by rfl)
 
-/-- and the side condition really excludes the lossy cases -/
-example : unionSafe h0 .id (.union [.int, .str]) (.str "12".toList) = false := by rfl
+/-- the side condition is void on Unions of primitives and really excludes the lossy non-primitive cases -/
+example : unionSafe h0 .id (.union [.int, .str]) (.str "12".toList) = true := by rfl
+example : unionSafe h0 .id (.union [.str, .path]) (.path ['a']) = false := by rfl
+example : primUnions exTy = true ∧ wf exTy = true := by decide
+example : primUnions (.list (.union [.noneT, .dict .str (.set .int)])) = true := by decide
+example : roundTrip h0 .yaml exTy exVal = .ok exVal := c05_instance h0 .yaml _ _ _ exVal (by decide) (by decide) (by rfl)
 
 /-! ### lenient raw encodings (numbers / bools as strings, tuples as lists) -/
 
